@@ -10,6 +10,7 @@ import IcyVerif.Drv.Sixel
 import IcyVerif.Drv.SixelQueue
 import IcyVerif.Drv.Tdf
 import IcyVerif.Drv.Term
+import IcyVerif.Drv.Undo
 import IcyVerif.Drv.Uni
 import IcyVerif.Drv.XbCompress
 open IcyVerif.Drv
@@ -28,6 +29,7 @@ def dispatch (line : String) : String :=
   | "sixelqueue" :: rest => SixelQueue.handle rest
   | "tdf" :: rest => Tdf.handle rest
   | "term" :: rest => Term.handle rest
+  | "undo" :: rest => Undo.handle rest
   | "uni" :: rest => Uni.handle rest
   | "xbcompress" :: rest => XbCompress.handle rest
   | _ => "bad-op"
